@@ -1103,7 +1103,8 @@ def facts_of(ctx, c: Container) -> Facts:
     if c.kind == "default":      # re-binding the parameter name is local
         runtime = [e for e in runtime if e.kind not in ("reset", "rebind")]
     esc = [e for e in runtime if e.kind == "escape"]
-    is_reset = lambda e: e.kind == "reset" or (c.kind == "sys" and e.kind == "del")
+    # for the interpreter's tables the reset of "our" entry is the removal of one key: `del c[k]` or `c.pop(k[, default])`
+    is_reset = lambda e: e.kind == "reset" or (c.kind == "sys" and (e.kind == "del" or (e.kind == "mutcall" and e.detail == ".pop()" and e.key is not None)))
     resets = [e for e in runtime if is_reset(e)]
     muts = [e for e in runtime if e.kind in MUTATING and e.kind != "escape" and not is_reset(e)]
     keyread_fs = {e.f for e in runtime if e.kind == "keyread"}
@@ -1818,7 +1819,10 @@ def r3_reset_before_use(ctx, rid):
             chain = " -> ".join(f"{g.qualname}:{getattr(st, 'lineno', '?')} `{norm(st, 70)}`" for g, st, what in w)
             facts["witness"] = [f"{g.qual}:{getattr(st, 'lineno', '?')} {norm(st, 100)} [{what}]" for g, st, what in w]
             last = w[-1]
-            ctx.violation(rid, e, e.node, f"`{key}` ({TABLE.get(key, ('per-compilation state', ''))[1] or 'per-compilation state'}) is "
+            # one finding per container, keyed by the first compile entry that reaches a use of it (not by whichever entry happens to be
+            # the first unsafe one: repairing one entry must not turn the same defect into a "new" finding at the next entry)
+            facts["unsafe_entry"] = e.qualname
+            ctx.violation(rid, reaching[0], reaching[0].node, f"`{key}` ({TABLE.get(key, ('per-compilation state', ''))[1] or 'per-compilation state'}) is "
                           f"observed by {last[0].qualname} ({last[2]}) during {e.qualname} on a path that passes no reset of it "
                           f"({chain}); it is emptied only if the previous user called clear(), so a compilation that follows one with "
                           f"clear=False starts from the previous model's entries", facts, label=label)
